@@ -23,6 +23,10 @@ import (
 // Every read is (a) printed for the Lean model and (b) checked by a model-free shadow: the harness keeps,
 // per committed version, the plain map the store had when that version was the frontier (the property's
 // sentence), and per open view an overlay of its own writes.
+// Scans are taken as the store's iterator delivers them (no entry is filtered out by the harness: since 522bff7 the
+// delete-enabled iterator skips deleted entries itself) and are checked twice: against the view's own Get/Has on
+// every candidate key (vdbScanAgreesWithReads — no key that Get/Has report present may be missing, no key they
+// report absent may be listed, at the frontier and at every historical view alike), and against the shadow.
 // ---------------------------------------------------------------------------------------------------
 
 func hx(b []byte) string {
@@ -94,19 +98,6 @@ func (v *vView) lookup(k []byte) ([]byte, bool) {
 	val, ok := v.base[string(k)]
 	return val, ok
 }
-// fromBase reports whether the logical value of k is inherited from the root's base contents (not written through a view)
-func (v *vView) fromBase(k []byte) bool {
-	if v.isSub {
-		return v.parent.fromBase(append(append([]byte{}, v.prefix...), k...))
-	}
-	if _, ok := v.writes[string(k)]; ok {
-		return false
-	}
-	if v.parent != nil {
-		return v.parent.fromBase(k)
-	}
-	return true
-}
 func (v *vView) root() *vView {
 	for v.parent != nil {
 		v = v.parent
@@ -150,19 +141,147 @@ func (v *vView) keys(acc map[string]bool) {
 	}
 }
 
-// dropEmpty renders the expected scan without the entries whose value is empty
-func dropEmpty(v *vView, want []string) string {
-	var r []string
-	for _, e := range want {
-		kb, _ := hex.DecodeString(strings.SplitN(e, "=", 2)[0])
-		if !(strings.HasSuffix(e, "=-") && v.fromBase(kb)) {
-			r = append(r, e)
+// absPrefix: for a Subset window (possibly nested) the prefix its keys carry in the layer it looks into
+func (v *vView) absPrefix() []byte {
+	pre := []byte{}
+	for v.isSub {
+		pre = append(append([]byte{}, v.prefix...), pre...)
+		v = v.parent
+	}
+	return pre
+}
+
+// vdbScanAgreesWithReads is the model-free, shadow-free half of "a view at X shows the state as of X" for ordered
+// scans: the scan of view v under prefix p must list exactly the keys that Get/Has OF THE SAME VIEW report present
+// (with the value Get returns), in key order. `universe` is only a set of candidate keys (every key the sequence
+// ever generated, in the coordinates of the root); it carries no expectation.
+func vdbScanAgreesWithReads(c *Ctx, tag string, v *vView, p []byte, entries [][2][]byte, universe map[string]bool) bool {
+	listed := map[string]bool{}
+	for i, e := range entries {
+		k, val := e[0], e[1]
+		listed[string(k)] = true
+		if !bytes.HasPrefix(k, p) {
+			c.Fail("%s: view %s@%s scan %s lists key %s, which is not under the prefix", tag, v.name, v.version, hx(p), hx(k))
+			return false
+		}
+		if i > 0 && bytes.Compare(entries[i-1][0], k) >= 0 {
+			c.Fail("%s: view %s@%s scan %s is not in strictly ascending key order: %s before %s", tag, v.name, v.version, hx(p), hx(entries[i-1][0]), hx(k))
+			return false
+		}
+		got, gerr := v.d.Get(k)
+		has, _ := v.d.Has(k)
+		if gerr == leveldb.ErrNotFound || !has {
+			c.Fail("%s: view %s@%s scan %s lists key %s (value %s), but Get/Has of the same view report the key absent (get err=%v, has=%v) — a scan must not show a key that does not exist as of that commit", tag, v.name, v.version, hx(p), hx(k), hx(val), gerr, has)
+			return false
+		}
+		if gerr != nil || !bytes.Equal(got, val) {
+			c.Fail("%s: view %s@%s scan %s lists key %s with value %s, Get of the same view returns (%s,%v)", tag, v.name, v.version, hx(p), hx(k), hx(val), hx(got), gerr)
+			return false
 		}
 	}
-	if len(r) == 0 {
+	pre := v.absPrefix()
+	cands := make([]string, 0, len(universe))
+	for u := range universe {
+		if bytes.HasPrefix([]byte(u), pre) {
+			cands = append(cands, u[len(pre):])
+		}
+	}
+	sort.Strings(cands) // deterministic report
+	for _, u := range cands {
+		k := []byte(u)
+		if !bytes.HasPrefix(k, p) || listed[string(k)] {
+			continue
+		}
+		if len(p) == 0 && !userKey(k) {
+			continue
+		}
+		has, _ := v.d.Has(k)
+		got, gerr := v.d.Get(k)
+		if has || gerr == nil {
+			if v.root().hist && len(got) == 0 {
+				tag += " historical-scan-drops-empty-valued-keys" // the shape of former finding F3b (fixed by 734ff49)
+			}
+			c.Fail("%s: view %s@%s scan %s = [%s] misses key %s, which Get/Has of the same view report present (value %s, has=%v) — a scan must show every key that exists as of that commit", tag, v.name, v.version, hx(p), entriesString(entries), hx(k), hx(got), has)
+			return false
+		}
+	}
+	return true
+}
+
+func entriesString(entries [][2][]byte) string {
+	if len(entries) == 0 {
 		return "empty"
 	}
-	return strings.Join(r, ",")
+	parts := make([]string, len(entries))
+	for i, e := range entries {
+		parts[i] = hx(e[0]) + "=" + hx(e[1])
+	}
+	return strings.Join(parts, ",")
+}
+
+// vdbScanAgreesWithShadow: the scan against the state as of the commit the view was opened at (plus own writes)
+func vdbScanAgreesWithShadow(c *Ctx, tag string, v *vView, p []byte, entries [][2][]byte) bool {
+	keys := map[string]bool{}
+	v.keys(keys)
+	var ks []string
+	for k := range keys {
+		if bytes.HasPrefix([]byte(k), p) {
+			if len(p) == 0 && !userKey([]byte(k)) {
+				continue
+			}
+			if _, ok := v.lookup([]byte(k)); ok {
+				ks = append(ks, k)
+			}
+		}
+	}
+	sort.Strings(ks)
+	ok := len(ks) == len(entries)
+	for i := 0; ok && i < len(ks); i++ {
+		val, _ := v.lookup([]byte(ks[i]))
+		if ks[i] != string(entries[i][0]) || !bytes.Equal(val, entries[i][1]) {
+			ok = false
+		}
+	}
+	if !ok {
+		var w []string
+		for _, k := range ks {
+			val, _ := v.lookup([]byte(k))
+			w = append(w, hx([]byte(k))+"="+hx(val))
+		}
+		ws := strings.Join(w, ",")
+		if ws == "" {
+			ws = "empty"
+		}
+		c.Fail("%s: view %s@%s scan %s = [%s], state as of that commit (plus own writes) gives [%s]", tag, v.name, v.version, hx(p), entriesString(entries), ws)
+	}
+	return ok
+}
+
+// vdbScanCoverage counts the inputs the two repaired defects needed: a scan of a historical view that lists a key
+// holding the empty value inherited from the viewed version (734ff49), and a scan over a region where a key known to
+// the sequence is absent at the view (deleted / created later / rolled back: 522bff7).
+func vdbScanCoverage(c *Ctx, v *vView, p []byte, entries [][2][]byte, universe map[string]bool) {
+	if v.root().hist {
+		c.Hit("scan-historical")
+	}
+	for _, e := range entries {
+		if len(e[1]) == 0 {
+			c.Hit("scan-lists-empty-value")
+			if v.root().hist {
+				c.Hit("scan-historical-lists-empty-value")
+			}
+			break
+		}
+	}
+	pre := v.absPrefix()
+	for u := range universe {
+		if bytes.HasPrefix([]byte(u), pre) && bytes.HasPrefix([]byte(u)[len(pre):], p) {
+			if _, ok := v.lookup([]byte(u)[len(pre):]); !ok {
+				c.Hit("scan-over-absent-key")
+				break
+			}
+		}
+	}
 }
 
 func userKey(k []byte) bool { return len(k) > 0 && k[0] >= 3 }
@@ -213,9 +332,8 @@ func scanDB(d db.DB, prefix []byte) (string, [][2][]byte, error) {
 	var out [][2][]byte
 	var sb strings.Builder
 	for it.Next() {
-		if it.Value() == nil { // the store's convention: nil value = deleted entry, consumers skip it
-			continue
-		}
+		// every entry the iterator delivers is an entry of the scan (deleted entries are skipped by the store's own
+		// delete-enabled iterator; if one shows up here, with a nil value, it is printed and the monitors see it)
 		k := append([]byte{}, it.Key()...)
 		v := append([]byte{}, it.Value()...)
 		if len(prefix) == 0 && !userKey(k) {
@@ -290,6 +408,9 @@ func init() {
 			if seq%25 == 3 {
 				vdbTwoWriters(c, seq)
 			}
+			if seq%40 == 0 {
+				vdbDirectedScans(c, seq)
+			}
 		}
 	})
 }
@@ -333,6 +454,12 @@ func vdbSequence(c *Ctx, seq int) {
 		}
 		return idStr(id)
 	}
+	universe := map[string]bool{} // every key this sequence generated (candidate keys for the scan monitor)
+	vdbKey := func(c *Ctx) []byte {
+		k := vdbKey(c)
+		universe[string(k)] = true
+		return k
+	}
 	genOps := func() []kvOp {
 		n := c.R.Intn(5)
 		ops := make([]kvOp, 0, n)
@@ -365,7 +492,6 @@ func vdbSequence(c *Ctx, seq int) {
 			ks = append(ks, k)
 		}
 		sort.Strings(ks)
-		var want []string
 		for _, k := range ks {
 			if !userKey([]byte(k)) && !v.isSub {
 				continue
@@ -374,7 +500,6 @@ func vdbSequence(c *Ctx, seq int) {
 			got, gerr := v.d.Get([]byte(k))
 			has, _ := v.d.Has([]byte(k))
 			if ok {
-				want = append(want, hx([]byte(k))+"="+hx(val))
 				if gerr != nil || !bytes.Equal(got, val) || !has {
 					c.Fail("vdb seq=%d %s: view %s@%s key %s: store says (%s,%v,has=%v), state as of that commit has value %s", seq, what, v.name, v.version, hx([]byte(k)), hx(got), gerr, has, hx(val))
 					return
@@ -387,20 +512,14 @@ func vdbSequence(c *Ctx, seq int) {
 		if v.isSub {
 			return
 		}
-		got, _, _ := scanDB(v.d, nil)
-		w := strings.Join(want, ",")
-		if w == "" {
-			w = "empty"
+		// ordered scan of everything: against the view's own Get/Has (every known key was just read above and
+		// agreed with the state as of the commit), then against that state
+		_, entries, _ := scanDB(v.d, nil)
+		tag := fmt.Sprintf("vdb seq=%d %s", seq, what)
+		if !vdbScanAgreesWithReads(c, tag, v, nil, entries, universe) {
+			return
 		}
-		if got != w {
-			if v.root().hist && got == dropEmpty(v, want) {
-				c.Fail("vdb seq=%d historical-scan-drops-empty-valued-keys: view %s@%s ordered scan is [%s], state as of that commit is [%s]", seq, v.name, v.version, got, w)
-				c.Fails = c.Fails[:len(c.Fails)-1] // reported on the line; does not stop the sequence
-				c.knownDrop++
-				return
-			}
-			c.Fail("vdb seq=%d %s: view %s@%s ordered scan is [%s], state as of that commit is [%s]", seq, what, v.name, v.version, got, w)
-		}
+		vdbScanAgreesWithShadow(c, tag, v, nil, entries)
 	}
 
 	popHeavy := c.Args["mix"] == "pop"
@@ -613,38 +732,11 @@ func vdbSequence(c *Ctx, seq int) {
 				p := vdbPrefix(c)
 				got, entries, _ := scanDB(v.d, p)
 				c.Emit("vdb-scan %s %s | %s", v.name, hx(p), got)
-				keys := map[string]bool{}
-				v.keys(keys)
-				var ks []string
-				for k := range keys {
-					if bytes.HasPrefix([]byte(k), p) {
-						if _, ok := v.lookup([]byte(k)); ok {
-							ks = append(ks, k)
-						}
-					}
+				tag := fmt.Sprintf("vdb seq=%d", seq)
+				if vdbScanAgreesWithReads(c, tag, v, p, entries, universe) {
+					vdbScanAgreesWithShadow(c, tag, v, p, entries)
 				}
-				sort.Strings(ks)
-				okScan := len(ks) == len(entries)
-				for i := 0; okScan && i < len(ks); i++ {
-					val, _ := v.lookup([]byte(ks[i]))
-					if ks[i] != string(entries[i][0]) || !bytes.Equal(val, entries[i][1]) {
-						okScan = false
-					}
-				}
-				if !okScan {
-					var w []string
-					for _, k := range ks {
-						val, _ := v.lookup([]byte(k))
-						w = append(w, hx([]byte(k))+"="+hx(val))
-					}
-					if v.root().hist && got == dropEmpty(v, w) {
-						c.Fail("vdb seq=%d historical-scan-drops-empty-valued-keys: view %s@%s scan %s = [%s], state as of that commit (plus own writes) gives [%s]", seq, v.name, v.version, hx(p), got, strings.Join(w, ","))
-						c.Fails = c.Fails[:len(c.Fails)-1]
-						c.knownDrop++
-					} else {
-						c.Fail("vdb seq=%d: view %s@%s scan %s = [%s], state as of that commit (plus own writes) gives [%s]", seq, v.name, v.version, hx(p), got, strings.Join(w, ","))
-					}
-				}
+				vdbScanCoverage(c, v, p, entries, universe)
 				c.Hit("scan")
 				if len(entries) > 1 {
 					c.Hit("scan-multi")
@@ -766,7 +858,11 @@ func vdbDeepCache(c *Ctx, seq int) {
 	}
 	var chain []types.HashHeight
 	specs := map[string]shadow{"0:": {}}
+	universe := map[string]bool{}
 	commit := func(ops []kvOp) bool {
+		for _, o := range ops {
+			universe[string(o.k)] = true
+		}
 		prev := types.ZeroHashHeight
 		pk := "0:"
 		if len(chain) > 0 {
@@ -806,7 +902,12 @@ func vdbDeepCache(c *Ctx, seq int) {
 			if c.R.Intn(5) == 0 {
 				ops = append(ops, kvOp{del: true, k: vdbKey(c)})
 			} else {
-				ops = append(ops, kvOp{k: vdbKey(c), v: append(vdbVal(c), 1)})
+				// mostly non-empty values; every fourth put may write the empty value (deep views must list those keys too)
+				val := vdbVal(c)
+				if c.R.Intn(4) != 0 {
+					val = append(val, 1)
+				}
+				ops = append(ops, kvOp{k: vdbKey(c), v: val})
 			}
 		}
 		return ops
@@ -829,7 +930,7 @@ func vdbDeepCache(c *Ctx, seq int) {
 		}
 		c.Emit("vdb-view %s %s | ok", name, idStr(x))
 		v := &vView{name: name, d: d, base: specs[idStr(x)].clone(), writes: map[string][]byte{}, version: idStr(x), hist: true}
-		got, _, _ := scanDB(d, nil)
+		_, entries, _ := scanDB(d, nil)
 		for _, pfx := range [][]byte{{3}, {4}} {
 			g1, _, _ := scanDB(d, pfx)
 			c.Emit("vdb-scan %s %s | %s", name, hx(pfx), g1)
@@ -841,27 +942,20 @@ func vdbDeepCache(c *Ctx, seq int) {
 			ks = append(ks, k)
 		}
 		sort.Strings(ks)
-		var want []string
 		for _, k := range ks {
 			val, ok := v.lookup([]byte(k))
 			gv, gerr := d.Get([]byte(k))
 			has, _ := d.Has([]byte(k))
-			if ok {
-				want = append(want, hx([]byte(k))+"="+hx(val))
-			}
 			if ok != (gerr == nil) || ok != has || (ok && !bytes.Equal(gv, val)) {
 				c.Fail("vdb deep seq=%d %s: view at %s (%d commits below the frontier) key %s: store says (%s,%v,has=%v), state as of that commit: present=%v value=%s", seq, what, idStr(x), len(chain)-int(x.Height), hx([]byte(k)), hx(gv), gerr, has, ok, hx(val))
 				return false
 			}
 		}
-		w := strings.Join(want, ",")
-		if w == "" {
-			w = "empty"
-		}
-		if got != w && got != dropEmpty(v, want) {
-			c.Fail("vdb deep seq=%d %s: view at %s ordered scan is [%s], state as of that commit is [%s]", seq, what, idStr(x), got, w)
+		tag := fmt.Sprintf("vdb deep seq=%d %s", seq, what)
+		if !vdbScanAgreesWithReads(c, tag, v, nil, entries, universe) || !vdbScanAgreesWithShadow(c, tag, v, nil, entries) {
 			return false
 		}
+		vdbScanCoverage(c, v, nil, entries, universe)
 		return true
 	}
 	early := chain[c.R.Intn(4)]
@@ -888,6 +982,278 @@ func vdbDeepCache(c *Ctx, seq int) {
 		return
 	}
 	c.Hit("deep-cache-scenario")
+}
+
+// vdbDirectedScans delivers, on every run, the family of inputs around the two repaired scan defects (former findings
+// F3b / 734ff49 and 522bff7), with random keys and values:
+//   X   = commit 1: kE := "" (the empty value), kO := one byte, kD := value, kS := value
+//   X+1 = commit 2: delete kD, create kN, and one of {keep kE, delete kE, overwrite kE with a non-empty value}
+//   (X+2 … a few random commits, sometimes)
+// then: the view at X (below the frontier) must list kE with the empty value, kO, kD and kS and must not list kN; the
+// view at the frontier likewise for its own state; a snapshot of the historical view with own writes (an empty value
+// written, a key deleted through it) scans as it reads; after popping back to X the frontier — whose raw key space
+// now holds a deleted entry for kN — must not list kN, and neither must a view opened on it, nor after re-creating and
+// popping again. Every read is emitted for the Lean model and checked by the scan monitors.
+func vdbDirectedScans(c *Ctx, seq int) {
+	dir, err := os.MkdirTemp("", "zvdb")
+	if err != nil {
+		panic(err)
+	}
+	defer os.RemoveAll(dir)
+	m := db.NewLevelDBManager(dir)
+	defer func() { safely(func() { m.Stop() }) }()
+	c.Emit("vdb-reset")
+	counter := uint64(seq)<<32 | 1<<29
+	newHash := func() types.Hash {
+		counter++
+		var h types.Hash
+		binary.BigEndian.PutUint64(h[:8], counter)
+		h[31] = 1
+		return h
+	}
+	var chain []types.HashHeight
+	specs := map[string]shadow{"0:": {}}
+	universe := map[string]bool{}
+	verKey := func() string {
+		if len(chain) == 0 {
+			return "0:"
+		}
+		return idStr(chain[len(chain)-1])
+	}
+	commit := func(ops []kvOp) bool {
+		for _, o := range ops {
+			universe[string(o.k)] = true
+		}
+		prev := types.ZeroHashHeight
+		if len(chain) > 0 {
+			prev = chain[len(chain)-1]
+		}
+		pk := verKey()
+		id := types.HashHeight{Height: prev.Height + 1, Hash: newHash()}
+		p := db.NewPatch()
+		for _, o := range ops {
+			if o.del {
+				p.Delete(o.k)
+			} else {
+				p.Put(o.k, o.v)
+			}
+		}
+		if err := m.Add(&vTx{commits: []db.Commit{&vCommit{id: id, prev: prev}}, patch: p}); err != nil {
+			c.Emit("vdb-add %s %s %s | err", pk, idStr(id), opsString(ops, false))
+			c.Fail("vdb directed seq=%d: commit on the frontier refused: %v", seq, err)
+			return false
+		}
+		c.Emit("vdb-add %s %s %s | ok", pk, idStr(id), opsString(ops, false))
+		ns := specs[pk].clone()
+		for _, o := range ops {
+			if o.del {
+				delete(ns, string(o.k))
+			} else {
+				ns[string(o.k)] = o.v
+			}
+		}
+		specs[idStr(id)] = ns
+		chain = append(chain, id)
+		return true
+	}
+	pop := func() bool {
+		if err := m.Pop(); err != nil {
+			c.Emit("vdb-pop | err")
+			c.Fail("vdb directed seq=%d: pop of the frontier failed: %v", seq, err)
+			return false
+		}
+		c.Emit("vdb-pop | ok")
+		chain = chain[:len(chain)-1]
+		return true
+	}
+	nviews := 0
+	// reads every candidate key and scans the prefixes through the view; false = a monitor failed
+	exercise := func(v *vView, what string) bool {
+		tag := fmt.Sprintf("vdb directed seq=%d %s", seq, what)
+		pre := v.absPrefix()
+		var ks []string
+		for u := range universe {
+			if bytes.HasPrefix([]byte(u), pre) {
+				ks = append(ks, u[len(pre):])
+			}
+		}
+		sort.Strings(ks)
+		for _, ku := range ks {
+			k := []byte(ku)
+			got, gerr := v.d.Get(k)
+			has, _ := v.d.Has(k)
+			res := "notfound"
+			if gerr == nil {
+				res = "val:" + hx(got)
+			} else if gerr != leveldb.ErrNotFound {
+				res = "error"
+			}
+			c.Emit("vdb-get %s %s | %s", v.name, hx(k), res)
+			c.Emit("vdb-has %s %s | %v", v.name, hx(k), has)
+			want, ok := v.lookup(k)
+			if ok != (gerr == nil) || ok != has || (ok && !bytes.Equal(want, got)) {
+				c.Fail("%s: view %s@%s key %s: store says (%s, has=%v), state as of that commit (plus own writes): present=%v value=%s", tag, v.name, v.version, hx(k), res, has, ok, hx(want))
+				return false
+			}
+		}
+		prefixes := [][]byte{{3}, {4}}
+		if len(ks) > 0 {
+			k := []byte(ks[c.R.Intn(len(ks))])
+			prefixes = append(prefixes, k, k[:1+c.R.Intn(len(k))])
+		}
+		for _, p := range prefixes {
+			got, entries, _ := scanDB(v.d, p)
+			c.Emit("vdb-scan %s %s | %s", v.name, hx(p), got)
+			if !vdbScanAgreesWithReads(c, tag, v, p, entries, universe) || !vdbScanAgreesWithShadow(c, tag, v, p, entries) {
+				return false
+			}
+			vdbScanCoverage(c, v, p, entries, universe)
+		}
+		return true
+	}
+	open := func(id types.HashHeight, what string) *vView {
+		name := fmt.Sprintf("s%d", nviews)
+		nviews++
+		d := m.Get(id)
+		if d == nil {
+			c.Emit("vdb-view %s %s | nil", name, idStr(id))
+			c.Fail("vdb directed seq=%d %s: view at %s (on the current chain) could not be opened", seq, what, idStr(id))
+			return nil
+		}
+		c.Emit("vdb-view %s %s | ok", name, idStr(id))
+		return &vView{name: name, d: d, base: specs[idStr(id)].clone(), writes: map[string][]byte{}, version: idStr(id), hist: id != chain[len(chain)-1]}
+	}
+	// distinct keys under one first byte, so that they interleave in key order
+	first := byte(3 + c.R.Intn(2))
+	var keys [][]byte
+	for len(keys) < 6 {
+		k := append([]byte{first}, vdbKey(c)[1:]...)
+		if len(keys)%2 == 1 {
+			k = append(k, byte(len(keys)))
+		}
+		dup := false
+		for _, x := range keys {
+			if bytes.Equal(x, k) {
+				dup = true
+			}
+		}
+		if !dup {
+			keys = append(keys, k)
+		}
+	}
+	kE, kO, kD, kS, kN, kW := keys[0], keys[1], keys[2], keys[3], keys[4], keys[5]
+	nonEmpty := func() []byte { return append(vdbVal(c), byte(1+c.R.Intn(3))) }
+	if !commit([]kvOp{{k: kE, v: []byte{}}, {k: kO, v: []byte{byte(c.R.Intn(2))}}, {k: kD, v: nonEmpty()}, {k: kS, v: nonEmpty()}}) {
+		return
+	}
+	x := chain[0]
+	ops2 := []kvOp{{del: true, k: kD}, {k: kN, v: vdbVal(c)}}
+	switch c.R.Intn(3) {
+	case 0:
+		ops2 = append(ops2, kvOp{del: true, k: kE})
+	case 1:
+		ops2 = append(ops2, kvOp{k: kE, v: nonEmpty()})
+	}
+	if !commit(ops2) {
+		return
+	}
+	for i := c.R.Intn(3); i > 0; i-- {
+		var ops []kvOp
+		for j := c.R.Intn(3); j >= 0; j-- {
+			k := keys[c.R.Intn(len(keys)-1)]
+			if c.R.Intn(3) == 0 {
+				ops = append(ops, kvOp{del: true, k: k})
+			} else {
+				ops = append(ops, kvOp{k: k, v: vdbVal(c)})
+			}
+		}
+		if !commit(ops) {
+			return
+		}
+	}
+	// the view at X, below the frontier, and the frontier
+	vx := open(x, "view below the frontier")
+	if vx == nil || !exercise(vx, "view below the frontier") {
+		return
+	}
+	vf := open(chain[len(chain)-1], "view at the frontier")
+	if vf == nil || !exercise(vf, "view at the frontier") {
+		return
+	}
+	// a snapshot of the historical view with own writes: an empty value written, a key deleted, a key created
+	{
+		name := fmt.Sprintf("s%d", nviews)
+		nviews++
+		sd := vx.d.Snapshot()
+		c.Emit("vdb-snap %s %s | ok", vx.name, name)
+		sv := &vView{name: name, d: sd, parent: vx, writes: map[string][]byte{}, version: vx.version + "+snap"}
+		universe[string(kW)] = true
+		for _, o := range []kvOp{{k: kS, v: []byte{}}, {del: true, k: kO}, {k: kW, v: vdbVal(c)}} {
+			if o.del {
+				e := sd.Delete(o.k)
+				c.Emit("vdb-del %s %s | %v", name, hx(o.k), e == nil)
+			} else {
+				e := sd.Put(o.k, o.v)
+				c.Emit("vdb-put %s %s %s | %v", name, hx(o.k), hx(o.v), e == nil)
+			}
+			sv.write(o.k, o.v, o.del)
+		}
+		if !exercise(sv, "snapshot with own writes over the view below the frontier") {
+			return
+		}
+		// … and a Subset window onto it
+		pfx := []byte{first}
+		name2 := fmt.Sprintf("s%d", nviews)
+		nviews++
+		ud := sd.Subset(pfx)
+		c.Emit("vdb-subset %s %s %s | ok", name, name2, hx(pfx))
+		uv := &vView{name: name2, d: ud, parent: sv, isSub: true, prefix: pfx, version: sv.version + "+sub"}
+		tag := fmt.Sprintf("vdb directed seq=%d subset of the snapshot", seq)
+		for _, p := range [][]byte{kE[1:], {0}, {1}, {3}, {4}, {255}} {
+			if len(p) == 0 {
+				continue
+			}
+			got, entries, _ := scanDB(ud, p)
+			c.Emit("vdb-scan %s %s | %s", name2, hx(p), got)
+			if !vdbScanAgreesWithReads(c, tag, uv, p, entries, universe) || !vdbScanAgreesWithShadow(c, tag, uv, p, entries) {
+				return
+			}
+		}
+	}
+	// roll back to X: the frontier's raw key space now holds deleted entries for everything created after X
+	for len(chain) > 1 {
+		if !pop() {
+			return
+		}
+	}
+	vp := open(x, "frontier after rolling back to it")
+	if vp == nil || !exercise(vp, "frontier after rolling back to it") {
+		return
+	}
+	// the earlier view at X still reads and scans the same
+	if !exercise(vx, "view opened below the frontier, after the rollback made it the frontier") {
+		return
+	}
+	// commit on top again (kN stays deleted, another key created), look at X from below the new frontier; pop once more
+	if !commit([]kvOp{{k: kW, v: vdbVal(c)}, {k: kE, v: nonEmpty()}}) {
+		return
+	}
+	vy := open(x, "view below the new frontier")
+	if vy == nil || !exercise(vy, "view below the new frontier") {
+		return
+	}
+	vg := open(chain[len(chain)-1], "new frontier")
+	if vg == nil || !exercise(vg, "new frontier") {
+		return
+	}
+	if !pop() {
+		return
+	}
+	vz := open(x, "frontier after the second rollback")
+	if vz == nil || !exercise(vz, "frontier after the second rollback") {
+		return
+	}
+	c.Hit("directed-scan-scenario")
 }
 
 // gatedPatch lets the harness stop a commit at the points where ldbManager.Add calls into the patch:
